@@ -152,13 +152,97 @@ def _leaves():
     return L
 
 
+# ----------------------------------------------------------------------------------------------
+# parametrised leaves: constructor arguments drawn from option tables.  The leaf NAME carries everything needed to
+# rebuild it ("P|<class>|<domain>|<keep>|<json kwargs>"), so plans stay plain JSON and replay in a fresh interpreter.
+# ----------------------------------------------------------------------------------------------
+_CJ = [0, 0.4, 1.0, [0.0, 1.5], [0.5, 1.0]]
+PARAM_TABLES = {
+    # class: (domains, keep, patch_ok, scalable, {kwarg: choices})
+    "KDColorJitter": (["P", "T"], True, False, True, dict(brightness=_CJ, contrast=_CJ, saturation=_CJ, hue=[0, 0.1, 0.5, [-0.5, 0.1], [0.0, 0.3]])),
+    "KDRandomColorJitter": (["P", "T"], True, False, True, dict(p=[0.5, 0.8, 1.0], brightness=_CJ, contrast=_CJ, saturation=_CJ, hue=[0, 0.1, 0.5, [-0.2, 0.2]])),
+    "KDRandomErasing": (["T"], True, False, False, dict(p=[0.5, 1.0], mode=["zeros", "pixelwise", "channelwise"], max_count=[None, 1, 3],
+                                                        min_area=[0.02, 0.1], max_area=[0.2, 1 / 3])),
+    "KDGaussianBlurTV": (["T"], True, False, True, dict(kernel_size=[3, 5], sigma=[[0.1, 2.0], [0.1, 0.1], [0.1, 5.0]])),
+    "KDGaussianBlurPIL": (["P"], True, False, True, dict(sigma=[[0.1, 2.0], [0.1, 0.1], [0.1, 5.0]])),
+    "KDRandomGaussianBlurPIL": (["P"], True, False, True, dict(p=[0.3, 1.0], sigma=[[0.1, 2.0], [0.1, 4.0]])),
+    "KDAdditiveGaussianNoise": (["T"], True, True, True, dict(std=[0.1, 1.0], magnitude=[0.5, 1.0], magnitude_std=[0.0, 0.2, "inf"],
+                                                              magnitude_min=[0.0, 0.2], clip_min=[None, 0.0], clip_max=[None, 1.0])),
+    "KDAdditiveUniformNoise": (["T"], True, True, True, dict(magnitude=[0.3, 1.0], magnitude_std=[0.0, 0.1, "inf"], magnitude_min=[0.0, 0.1])),
+    "KDThreshold": (["T"], True, True, True, dict(threshold=[0.2, 0.5], threshold_std=[0.0, 0.2])),
+    "KDRandAugment": (["P"], True, False, True, dict(num_ops=[1, 2, 3], magnitude=[0, 5, 9, 10], magnitude_std=[0.0, 0.5, "inf"],
+                                                     interpolation=["random", "bicubic", "bilinear"], apply_op_p=[0.5, 1.0], fill_color=[[124, 116, 104]])),
+    "KDRandomResizedCrop": (["T", "P"], False, False, False, dict(size=[8, [8, 12]], scale=[[0.08, 1.0], [0.5, 1.0]],
+                                                                  ratio=[[0.75, 1.3333333333333333], [0.5, 2.0]], interpolation=["bilinear", "bicubic"])),
+    "KDRandomCrop": (["T", "P"], False, False, False, dict(size=[8], padding=[None, 2, 4], pad_if_needed=[False, True], padding_mode=["constant", "reflect"])),
+    "KDRandomSolarize": (["P"], True, False, True, dict(p=[0.5, 1.0], threshold=[0, 100, 128, 255])),
+    "KDRandomGrayscale": (["P"], True, False, True, dict(p=[0.2, 0.5, 1.0])),
+    "KDSpecAugment": (["S"], True, False, False, dict(time_masking=[2, 5], frequency_masking=[None, 3, 6])),
+    "KDMagnitudeJitter": (["S"], True, False, False, dict(alpha=[1, 10])),
+    "KDRandomHorizontalFlip": (["T", "P"], True, True, False, dict(p=[0.0, 0.5, 1.0])),
+}
+
+
+def _kw_from_json(kw):
+    out = {}
+    for k, v in kw.items():
+        if isinstance(v, list):
+            v = tuple(v)
+        if v == "inf":
+            v = float("inf")
+        out[k] = v
+    return out
+
+
+def gen_param_leaf(rng, dom=None, keep=False, patch=False, scalable_only=False):
+    """a leaf spec with constructor arguments drawn from PARAM_TABLES, or None if no class fits"""
+    import json
+    cands = sorted(c for c, (doms, kp, pok, sc, _) in PARAM_TABLES.items()
+                   if (dom is None or dom in doms) and (kp or not keep) and (pok or not patch) and (sc or not scalable_only))
+    if not cands:
+        return None
+    cls = rng.choice(cands)
+    doms, kp, pok, sc, table = PARAM_TABLES[cls]
+    d = dom if dom is not None else rng.choice(doms)
+    kw = {k: rng.choice(v) for k, v in sorted(table.items())}
+    if cls == "KDRandomErasing" and kw["min_area"] > kw["max_area"]:
+        kw["min_area"] = 0.02
+    return {"t": "leaf", "name": f"P|{cls}|{d}|{int(kp)}|{int(pok)}|" + json.dumps(kw, sort_keys=True)}
+
+
+class _Leaves(dict):
+    def __missing__(self, name):
+        import json
+        import kappadata.transforms as kdt
+        if not name.startswith("P|"):
+            raise KeyError(name)
+        _, cls, d, kp, pok, kwj = name.split("|", 5)
+        kw = _kw_from_json(json.loads(kwj))
+        ctor = getattr(kdt, cls)
+        entry = dict(make=lambda: ctor(**kw), dom=d, keep=bool(int(kp)), patch_ok=bool(int(pok)), pipeline=False, cls=cls)
+        self[name] = entry
+        return entry
+
+
+def display(name):
+    """short human-readable leaf name (parametrised leaves carry their kwargs in the name)"""
+    if name.startswith("P|"):
+        parts = name.split("|", 5)
+        return f"{parts[1]}{parts[5]}"
+    return name
+
+
+def base_class(name):
+    return name.split("|")[1] if name.startswith("P|") else name.split("(")[0]
+
+
 _L = None
 
 
 def leaves():
     global _L
     if _L is None:
-        _L = _leaves()
+        _L = _Leaves(_leaves())
     return _L
 
 
@@ -197,7 +281,7 @@ def dom_of(spec):
 def sig(spec):
     t = spec["t"]
     if t == "leaf":
-        return spec["name"]
+        return display(spec["name"])
     if t == "save":
         return "SaveStateToContext"
     if t in ("compose", "list"):
@@ -210,7 +294,8 @@ ROOT_CLASS = {"compose": "KDComposeTransform", "list": "list->KDComposeTransform
 
 
 def root_name(spec):
-    return spec["name"] if spec["t"] == "leaf" else ROOT_CLASS[spec["t"]]
+    return base_class(spec["name"]) if spec["t"] == "leaf" and spec["name"].startswith("P|") else \
+        (spec["name"] if spec["t"] == "leaf" else ROOT_CLASS[spec["t"]])
 
 
 def subtrees(spec):
@@ -234,9 +319,14 @@ def gen_spec(rng, depth=3, dom=None, keep_only=False, patch=False, allow_list=Fa
         dom = rng.choice(["T", "T", "T", "P", "P", "S", "PT", "SEG"])
 
     def leaf(keep):
-        names = sorted(n for n, e in L.items() if e["dom"] == dom and not e["pipeline"] and (e["keep"] or not keep)
+        names = sorted(n for n, e in L.items() if not n.startswith("P|") and e["dom"] == dom and not e["pipeline"] and (e["keep"] or not keep)
                        and (e["patch_ok"] or not patch))
-        return {"t": "leaf", "name": rng.choice(names)}
+        pick = {"t": "leaf", "name": rng.choice(names)}
+        if rng.random() < 0.35:
+            pl = gen_param_leaf(rng, dom, keep, patch)
+            if pl is not None:
+                return pl
+        return pick
 
     if depth <= 0 or rng.random() < 0.3 or dom == "SEG":  # KDComposeTransform treats a tuple as several samples
         return leaf(keep_only)
@@ -262,9 +352,12 @@ def gen_entry(rng):
     L = leaves()
     r = rng.random()
     if r < 0.4:
-        return {"t": "leaf", "name": rng.choice(sorted(n for n, e in L.items() if not e["pipeline"]))}
+        pick = {"t": "leaf", "name": rng.choice(sorted(n for n, e in L.items() if not n.startswith("P|") and not e["pipeline"]))}
+        if rng.random() < 0.4:
+            return gen_param_leaf(rng) or pick
+        return pick
     if r < 0.5:
-        return {"t": "leaf", "name": rng.choice(sorted(n for n, e in L.items() if e["pipeline"]))}
+        return {"t": "leaf", "name": rng.choice(sorted(n for n, e in L.items() if not n.startswith("P|") and e["pipeline"]))}
     return gen_spec(rng, depth=3)
 
 
